@@ -15,9 +15,9 @@ Definition C19_trace_full : Prop := trace_full.
    t; a = true (mixin path) also admits an instance of a subclass where the parent class is declared (fields typed
    with a base class, discriminated hierarchies), provided both classes agree on the context option. *)
 Theorem C19_trace_partial :
-  forall E stubs m v t pc k,
+  forall E stubs m v t pc px k,
     env_union_free E = true -> union_free t = true -> wt E (is_mixin m) v t = true -> (m = Codec -> k = CNone) ->
-    pack E stubs m v t pc k = (true, trav E pc k v).
+    pack E stubs m v t pc px k = (true, trav E pc k v).
 Proof. exact trace_partial. Qed.
 Print Assumptions C19_trace_partial.
 
@@ -31,16 +31,16 @@ Print Assumptions C19_trace_refuted.
 Theorem C19_codec_union_refuted :
   exists E v t, wt E false v t = true /\
     count_occ (list_eq_dec Nat.eq_dec) (map (fun e => match e with Pre c i _ => [c; i] | _ => [] end)
-                                            (snd (pack E true Codec v t false CNone))) [1; 7] = 2.
+                                            (snd (pack E true Codec v t false xf_none CNone))) [1; 7] = 2.
 Proof. exact codec_union_refuted. Qed.
 Print Assumptions C19_codec_union_refuted.
 
 (* mixin path, unions of dataclasses allowed everywhere: serialization succeeds and, contexts
    aside, every hook runs exactly once and in traversal order *)
 Theorem C19_mixin_once :
-  forall E stubs v t pc k, wt E true v t = true ->
-    fst (pack E stubs Mixin v t pc k) = true /\
-    map erase (snd (pack E stubs Mixin v t pc k)) = map erase (trav E pc k v).
+  forall E stubs v t pc px k, wt E true v t = true ->
+    fst (pack E stubs Mixin v t pc px k) = true /\
+    map erase (snd (pack E stubs Mixin v t pc px k)) = map erase (trav E pc k v).
 Proof. exact mixin_once. Qed.
 Print Assumptions C19_mixin_once.
 
@@ -48,10 +48,10 @@ Print Assumptions C19_mixin_once.
    caller's token (union-free schemas) *)
 Definition C19_context_full : Prop := context_full.
 Theorem C19_context :
-  forall E stubs v t k c i j,
+  forall E stubs v t px k c i j,
     env_union_free E = true -> union_free t = true -> wt E true v t = true -> onpath E true v c i j ->
-    (c_pre (cls E c) = true -> In (Pre c i k) (snd (pack E stubs Mixin v t true k))) /\
-    (c_post (cls E c) = true -> In (Post c j k) (snd (pack E stubs Mixin v t true k))).
+    (c_pre (cls E c) = true -> In (Pre c i k) (snd (pack E stubs Mixin v t true px k))) /\
+    (c_post (cls E c) = true -> In (Post c j k) (snd (pack E stubs Mixin v t true px k))).
 Proof. exact context_partial. Qed.
 Print Assumptions C19_context.
 
@@ -130,7 +130,7 @@ Definition v_ex : val :=
   VInst 1 6 9 [(1, VList [VInst 0 2 2 [(0, VInt)]; VInst 0 3 3 [(0, VInt)]]); (2, VInst 0 4 4 [(0, VInt)])].
 Example C19_nonvacuous :
   env_union_free E_ex = true /\ wt E_ex true v_ex (TDc 1) = true /\ onpath E_ex true v_ex 0 3 3 /\
-  pack E_ex true Mixin v_ex (TDc 1) true CTok
+  pack E_ex true Mixin v_ex (TDc 1) true xf_none CTok
   = (true, [Pre 1 6 CTok; Pre 0 2 CTok; Post 0 2 CTok; Pre 0 3 CTok; Post 0 3 CTok;
             Pre 0 4 CTok; Post 0 4 CTok; Post 1 9 CTok]) /\
   unpack E_ex (WDict None [(1, WList [WDict None [(0, WInt)]]); (2, WNone)]) (TDc 1) 0
@@ -168,7 +168,7 @@ Definition E_ex3 : env :=
 Definition v_ex3 : val := VInst 2 1 1 [(2, VList [VInst 1 2 2 [(1, VInst 0 3 3 [(0, VInt)])]])].
 Example C19_context_transit_nonvacuous :
   env_union_free E_ex3 = true /\ wt E_ex3 true v_ex3 (TDc 2) = true /\ onpath E_ex3 true v_ex3 0 3 3 /\
-  pack E_ex3 true Mixin v_ex3 (TDc 2) true CTok = (true, [Pre 2 1 CTok; Pre 0 3 CTok; Post 0 3 CTok; Post 2 1 CTok]).
+  pack E_ex3 true Mixin v_ex3 (TDc 2) true xf_none CTok = (true, [Pre 2 1 CTok; Pre 0 3 CTok; Post 0 3 CTok; Post 2 1 CTok]).
 Proof.
   repeat split; try (vm_compute; reflexivity).
   eapply onpath_field with (n := 2); [reflexivity|left; reflexivity|].
@@ -186,7 +186,7 @@ Definition v_ex4 : val :=
   VInst 0 1 1 [(0, VInst 0 2 2 [(0, VNone); (1, VList [VInst 0 3 3 [(0, VNone); (1, VList [])]])]); (1, VList [])].
 Example C19_context_recursive_nonvacuous :
   env_union_free E_ex4 = true /\ wt E_ex4 true v_ex4 (TDc 0) = true /\ onpath E_ex4 true v_ex4 0 3 3 /\
-  pack E_ex4 true Mixin v_ex4 (TDc 0) true CTok
+  pack E_ex4 true Mixin v_ex4 (TDc 0) true xf_none CTok
   = (true, [Pre 0 1 CTok; Pre 0 2 CTok; Pre 0 3 CTok; Post 0 3 CTok; Post 0 2 CTok; Post 0 1 CTok]).
 Proof.
   repeat split; try (vm_compute; reflexivity).
@@ -200,10 +200,10 @@ Qed.
    Base <- S2 (3, tag 3, a required extra field); holder 4 with  a: Base,  b: List[Annotated[Base, Discriminator(
    include_subtypes=True)]] (no field: every subclass is tried in order S1, S11, S2). *)
 Definition E_ex5 : env :=
-  [ Build_cinfo [Build_field 0 TInt false] false false true true false None None (Some true);
-    Build_cinfo [Build_field 0 TInt false] false false true true false (Some 0) (Some 1) None;
-    Build_cinfo [Build_field 0 TInt false; Build_field 1 TInt false] false false true true false (Some 1) (Some 2) None;
-    Build_cinfo [Build_field 0 TInt false; Build_field 2 TInt false] false false true true false (Some 0) (Some 3) None;
+  [ mk_cinfo_h [Build_field 0 TInt false] false false true true false None None (Some true);
+    mk_cinfo_h [Build_field 0 TInt false] false false true true false (Some 0) (Some 1) None;
+    mk_cinfo_h [Build_field 0 TInt false; Build_field 1 TInt false] false false true true false (Some 1) (Some 2) None;
+    mk_cinfo_h [Build_field 0 TInt false; Build_field 2 TInt false] false false true true false (Some 0) (Some 3) None;
     mk_cinfo [Build_field 3 (TDc 0) false; Build_field 4 (TList (TDisc 0 false false)) false] false false false false false ].
 Example C19_disc_nonvacuous :
   subclasses E_ex5 0 = [1; 2; 3] /\ lookup_tag E_ex5 (subclasses E_ex5 0) 3 = Some 3 /\
@@ -222,3 +222,17 @@ Example C19_disc_nonvacuous :
      C19_trace_partial applies *)
   wt E_ex5 true (VInst 4 9 9 [(3, VInst 2 7 7 [(0, VInt); (1, VInt)]); (4, VList [VInst 3 8 8 [(0, VInt); (2, VInt)]])]) (TDc 4) = true.
 Proof. repeat split; vm_compute; reflexivity. Qed.
+
+(* other keyword-adding options in a mixin union: holder 2 (context + dialect) with u: Union[A, B]; A = 0 (dialect, no
+   context), B = 1 (context, no dialect).  For an instance of B the first call expression
+   value.__mashumaro_to_dict__(dialect=dialect) raises TypeError, the second one passes the context: B's hooks get the
+   token (with equal dialect options the first expression would have succeeded and lost it, cf. C19_union_context_refuted) *)
+Definition E_ex6 : env :=
+  [ Build_cinfo [Build_field 0 TInt false] true true false false false None None None (false, false, true);
+    Build_cinfo [Build_field 1 TInt false] true true false false true None None None (false, false, false);
+    Build_cinfo [Build_field 2 (TUnion [0; 1]) false] true true false false true None None None (false, false, true) ].
+Example C19_union_flags_nonvacuous :
+  wt E_ex6 true (VInst 2 1 1 [(2, VInst 1 2 2 [(1, VInt)])]) (TDc 2) = true /\
+  pack E_ex6 true Mixin (VInst 2 1 1 [(2, VInst 1 2 2 [(1, VInt)])]) (TDc 2) true (false, false, true) CTok
+  = (true, [Pre 2 1 CTok; Pre 1 2 CTok; Post 1 2 CTok; Post 2 1 CTok]).
+Proof. split; vm_compute; reflexivity. Qed.
